@@ -364,6 +364,28 @@ func (a *Alt) addAtoms(as []atom) bool {
 			}
 			continue
 		}
+		if at.sign && at.term != nil && at.term.Op == OpBin && at.term.Name == "==" {
+			// x == c1 contradicts x == c2 for distinct constants
+			x, c := at.term.Args[0], at.term.Args[1]
+			if x.Op == OpConst {
+				x, c = c, x
+			}
+			if c.Op == OpConst && x.Op != OpConst {
+				xs := x.String()
+				for k, t := range a.terms {
+					if k[0] != 'b' || !a.facts[k] || t.Op != OpBin || t.Name != "==" {
+						continue
+					}
+					y, d := t.Args[0], t.Args[1]
+					if y.Op == OpConst {
+						y, d = d, y
+					}
+					if d.Op == OpConst && y.Op != OpConst && y.String() == xs && d.Name != c.Name {
+						return false
+					}
+				}
+			}
+		}
 		a.facts[at.key] = at.sign
 		a.terms[at.key] = at.term
 		a.sig = ""
@@ -1346,6 +1368,10 @@ func (fe *FactEngine) trackedCallee(a *Alt, c *ssa.CallCommon) (string, *Term, b
 				if recv != nil {
 					return "Stop", fe.resolveWith(a, recv), true
 				}
+			}
+		case "SecureNodeId":
+			if len(c.Args) == 2 && !c.IsInvoke() {
+				return "SecureNodeId", fe.resolveWith(a, c.Args[1]), true
 			}
 		case "AddPeer":
 			var recv ssa.Value
